@@ -263,6 +263,10 @@ def check(prop: str, tier: str, verif_seed: int) -> int:
             'sessions_fault_free': base_n,
             'sessions_with_faults': len(summaries) - base_n,
             'distinct_histories': len(all_hist),
+            'states': len({h for s in summaries for h in s['states']}),
+            'states_measure': 'distinct sha256 of the abstract reference-model state after an operation, over all sessions',
+            'seeds': {'VERIF_SEED': verif_seed, 'derivation': 'run_seed(i) = int(sha256(f"{VERIF_SEED}:{property}:{i}")[:8], 16)',
+                      'first_run_seeds': [s['seed'] for s in summaries if s['kind'] == 'base'][:5]},
             'operations_by_kind': {k[3:]: v for k, v in sorted(agg['counters'].items()) if k.startswith('op:')},
             'other_counters': {k: v for k, v in sorted(agg['counters'].items()) if not k.startswith('op:')},
             'faults_fired_by_kind': dict(sorted({**agg['fs_fired'],
